@@ -50,6 +50,8 @@ JBuildIdentity(e, cls0) ==
      R("C09", "constructor_rejects_prohibited", ~permitted, ~r.ok, cls),
      R("C09", "permitted_supported_accepted", permitted /\ IdentityModelValid(m), r.ok, cls),
      R("C14", "constructor_rejects_documented_defect", IdentityDefect(m), ~r.ok, cls),
+     \* the padding is exactly the bytes between the keys and the keys have their declared lengths: anything else is refused, not trimmed or filled
+     R("C10", "constructor_refuses_sizes_that_do_not_fill_the_block", IdentityDefect(m) /\ "literal" \notin DOMAIN m, ~r.ok, cls),
      R("C07", "constructed_hash_and_addresses", hasAcc /\ r.serok /\ "hash" \in DOMAIN r.acc /\ "sha" \in DOMAIN r,
        /\ r.acc.hash_ok /\ r.acc.hash = r.sha
        /\ r.acc.b32_ok /\ r.acc.b32 = B32Address(r.sha) /\ Len(r.acc.b32) = 60
